@@ -306,6 +306,165 @@ theorem limiter_bound (c : Nat) (reqs : List Req) (l : Limiter) (lo hi : Rat)
   rw [m, r] at this
   exact this
 
+/-! ### capacity of the tracked-IP map -/
+
+def keys (bs : List (Nat × Bucket)) : List Nat := bs.map (·.1)
+
+theorem exists_min_last (bs : List (Nat × Bucket)) (h : bs ≠ []) :
+    ∃ p ∈ bs, ∀ q ∈ bs, p.2.last ≤ q.2.last := by
+  induction bs with
+  | nil => exact absurd rfl h
+  | cons x xs ih =>
+    by_cases hx : xs = []
+    · subst hx; exact ⟨x, List.mem_cons_self, by intro q hq; simp at hq; rw [hq]⟩
+    · obtain ⟨p, hp, hmin⟩ := ih hx
+      rcases le_total x.2.last p.2.last with hle | hle
+      · refine ⟨x, List.mem_cons_self, ?_⟩
+        intro q hq
+        rcases List.mem_cons.mp hq with rfl | hq
+        · exact le_refl _
+        · exact le_trans hle (hmin q hq)
+      · refine ⟨p, List.mem_cons_of_mem _ hp, ?_⟩
+        intro q hq
+        rcases List.mem_cons.mp hq with rfl | hq
+        · exact hle
+        · exact hmin q hq
+
+theorem pickVictim_some (bs : List (Nat × Bucket)) (h : bs ≠ []) : ∃ v, pickVictim bs = some v ∧ v ∈ keys bs := by
+  obtain ⟨p, hp, hmin⟩ := exists_min_last bs h
+  have hmem : p.1 ∈ minLastKeys bs := by
+    unfold minLastKeys
+    apply List.mem_map.mpr
+    refine ⟨p, List.mem_filter.mpr ⟨hp, ?_⟩, rfl⟩
+    simp only [List.all_eq_true, decide_eq_true_eq]
+    intro q hq; exact hmin q hq
+  have hsub : ∀ v ∈ minLastKeys bs, v ∈ keys bs := by
+    intro v hv
+    unfold minLastKeys at hv
+    obtain ⟨q, hq, rfl⟩ := List.mem_map.mp hv
+    exact List.mem_map.mpr ⟨q, (List.mem_filter.mp hq).1, rfl⟩
+  unfold pickVictim
+  cases hm : minLastKeys bs with
+  | nil => rw [hm] at hmem; cases hmem
+  | cons v vs => exact ⟨v, rfl, hsub v (by rw [hm]; exact List.mem_cons_self)⟩
+
+theorem erase_length_of_mem (bs : List (Nat × Bucket)) (v : Nat) (hn : (keys bs).Nodup) (hv : v ∈ keys bs) :
+    (erase bs v).length + 1 = bs.length := by
+  induction bs with
+  | nil => cases hv
+  | cons x xs ih =>
+    rw [erase_cons]
+    simp only [keys, List.map_cons, List.nodup_cons] at hn
+    by_cases hx : x.1 = v
+    · simp only [hx, if_true]
+      have : v ∉ xs.map (·.1) := by rw [← hx]; exact hn.1
+      have he : erase xs v = xs := by
+        unfold erase
+        apply List.filter_eq_self.mpr
+        intro q hq
+        simp only [decide_eq_true_eq]
+        intro hqv; exact this (List.mem_map.mpr ⟨q, hq, hqv⟩)
+      rw [he]; rfl
+    · simp only [hx, if_false, List.length_cons]
+      have hv' : v ∈ keys xs := by
+        simp only [keys, List.map_cons, List.mem_cons] at hv
+        rcases hv with h | h
+        · exact absurd h.symm hx
+        · exact h
+      have := ih hn.2 hv'
+      omega
+
+theorem erase_of_not_mem (bs : List (Nat × Bucket)) (v : Nat) (hv : v ∉ keys bs) : erase bs v = bs := by
+  unfold erase
+  apply List.filter_eq_self.mpr
+  intro q hq
+  simp only [decide_eq_true_eq]
+  intro hqv; exact hv (List.mem_map.mpr ⟨q, hq, hqv⟩)
+
+theorem keys_erase_nodup (bs : List (Nat × Bucket)) (v : Nat) (hn : (keys bs).Nodup) : (keys (erase bs v)).Nodup := by
+  unfold keys erase
+  exact (List.Nodup.sublist ((List.filter_sublist).map _) hn)
+
+theorem not_mem_keys_erase (bs : List (Nat × Bucket)) (v : Nat) : v ∉ keys (erase bs v) := by
+  unfold keys erase
+  intro h
+  obtain ⟨q, hq, hqv⟩ := List.mem_map.mp h
+  have := (List.mem_filter.mp hq).2
+  simp at this
+  exact this hqv
+
+theorem mem_keys_iff_lookup (bs : List (Nat × Bucket)) (ip : Nat) : ip ∈ keys bs ↔ (lookup bs ip).isSome = true := by
+  induction bs with
+  | nil => simp [keys, lookup]
+  | cons x xs ih =>
+    rw [lookup_cons]
+    by_cases hx : x.1 = ip
+    · simp [keys, hx]
+    · simp only [hx, if_false]
+      rw [← ih]
+      simp only [keys, List.map_cons, List.mem_cons]
+      constructor
+      · rintro (h | h)
+        · exact absurd h.symm hx
+        · exact h
+      · exact Or.inr
+
+/-- the tracked-IP map stays within its capacity (at least one entry is always allowed) and its keys stay distinct -/
+theorem check_capacity (l : Limiter) (ip : Nat) (now : Rat)
+    (hn : (keys l.buckets).Nodup) (hlen : l.buckets.length ≤ max l.cfg.cap 1) :
+    (keys (l.check ip now).1.buckets).Nodup ∧ (l.check ip now).1.buckets.length ≤ max l.cfg.cap 1 := by
+  unfold Limiter.check Limiter.checkWith
+  by_cases he : l.cfg.enabled = true
+  · simp only [he, Bool.not_true, Bool.false_eq_true, if_false, Bucket.resetAfter_ok]
+    generalize hbs : evictFor l.cfg l.buckets ip (pickVictim l.buckets) = bs
+    have key : (keys bs).Nodup ∧ (if ip ∈ keys bs then bs.length else bs.length + 1) ≤ max l.cfg.cap 1 := by
+      rw [← hbs]
+      unfold evictFor
+      by_cases hnew : ((lookup l.buckets ip).isNone && decide (l.cfg.cap ≤ l.buckets.length)) = true
+      · simp only [hnew, if_true]
+        have hnone : ip ∉ keys l.buckets := by
+          rw [mem_keys_iff_lookup]; simp at hnew; simp [hnew.1]
+        have hcap : l.cfg.cap ≤ l.buckets.length := by simp at hnew; exact hnew.2
+        by_cases hempty : l.buckets = []
+        · have : pickVictim l.buckets = none := by rw [hempty]; rfl
+          rw [this]; simp only [hempty]
+          refine ⟨by simp [keys], ?_⟩
+          simp [keys]
+        · obtain ⟨v, hv, hvm⟩ := pickVictim_some l.buckets hempty
+          rw [hv]
+          simp only
+          refine ⟨keys_erase_nodup _ _ hn, ?_⟩
+          have hl := erase_length_of_mem l.buckets v hn hvm
+          have hnotin : ip ∉ keys (erase l.buckets v) := by
+            intro h
+            unfold keys erase at h
+            obtain ⟨q, hq, hqv⟩ := List.mem_map.mp h
+            exact hnone (List.mem_map.mpr ⟨q, (List.mem_filter.mp hq).1, hqv⟩)
+          simp only [hnotin, if_false]
+          omega
+      · simp only [hnew, if_false, Bool.false_eq_true]
+        refine ⟨hn, ?_⟩
+        split
+        · exact hlen
+        · rename_i hnotin
+          have hnone : (lookup l.buckets ip).isNone = true := by
+            rw [mem_keys_iff_lookup] at hnotin; simpa using hnotin
+          simp [hnone] at hnew
+          omega
+    obtain ⟨hnd, hl⟩ := key
+    simp only [insert]
+    constructor
+    · simp only [keys, List.map_cons, List.nodup_cons]
+      exact ⟨not_mem_keys_erase bs ip, keys_erase_nodup bs ip hnd⟩
+    · simp only [List.length_cons]
+      by_cases hin : ip ∈ keys bs
+      · simp only [hin, if_true] at hl
+        have := erase_length_of_mem bs ip hnd hin
+        omega
+      · simp only [hin, if_false] at hl
+        rw [erase_of_not_mem bs ip hin]; exact hl
+  · simp only [he, Bool.not_false, if_true]
+    exact ⟨hn, hlen⟩
 /-! ### a concrete history (non-vacuity witness of C30): capacity 1, client 1 is evicted by client 2,
 client 2 uses its burst of 2 and is then rejected with retry-after 1/4 s at rate 2 -/
 namespace Witness
